@@ -51,7 +51,10 @@ pub fn project(c: &Coordinator, gids: &BTreeMap<String, String>) -> J {
 }
 
 /// Execute one history; returns the trace block.
-fn run_history(hist: &[J]) -> Vec<J> {
+fn run_history(hist: &[J]) -> Vec<J> { run_history_cap(hist, None) }
+
+/// `cap`: max_pipelines of every registered worker (None = the default of 100)
+fn run_history_cap(hist: &[J], cap: Option<usize>) -> Vec<J> {
     let mut c = Coordinator::new();
     let mut plans: BTreeMap<u64, Plan> = BTreeMap::new();
     let mut gids: BTreeMap<String, String> = BTreeMap::new();
@@ -64,7 +67,7 @@ fn run_history(hist: &[J]) -> Vec<J> {
         let mut ok = true;
         let mut res = json!([]);
         let r = catch(|| match act {
-            "register" => { c.register_worker(WorkerNode::new(WorkerId(a["w"].as_str().unwrap().into()), "http://127.0.0.1:1".into(), "k".into())); }
+            "register" => { let mut n = WorkerNode::new(WorkerId(a["w"].as_str().unwrap().into()), "http://127.0.0.1:1".into(), "k".into()); if let Some(m) = cap { n.capacity.max_pipelines = m; } c.register_worker(n); }
             "deregister" => { ok = c.deregister_worker(&WorkerId(a["w"].as_str().unwrap().into())).is_ok(); }
             "age" => { let t = c.heartbeat_timeout; match c.workers.get_mut(&WorkerId(a["w"].as_str().unwrap().into())) { Some(w) if w.last_heartbeat.elapsed() <= t => w.last_heartbeat = Instant::now() - t - Duration::from_secs(2), _ => ok = false } }
             "draining" => { match c.workers.get_mut(&WorkerId(a["w"].as_str().unwrap().into())) { Some(w) if w.status == WorkerStatus::Ready => w.status = WorkerStatus::Draining, _ => ok = false } }
@@ -140,7 +143,7 @@ pub fn replay(args: &[String]) {
     let mut traces = vec![];
     for c in &cases {
         let hist = c["hist"].as_array().unwrap();
-        let blk = run_history(hist);
+        let blk = run_history_cap(hist, c["cap"].as_u64().map(|x| x as usize));
         let commits = hist.iter().filter(|h| h["a"].as_str().unwrap().starts_with("commit")).count();
         rep.case(&json!({"hist": hist.iter().map(|h| h["a"].clone()).collect::<Vec<_>>()}), commits > 0);
         if blk.iter().any(|r| r["ev"] == "panic") {
